@@ -157,6 +157,8 @@ def observe(lang, text, profile="basic"):
         if "no_pointer_slice" in t:
             lst = [m for m in foo["members"] if m["key"] == "list"][0]
             tobs["no_pointer_slice"] = not lst["pointer"]
+    # only the tables the profile writes are part of the comparison
+    tobs = {k: v for k, v in tobs.items() if k in t}
     return obs, tobs
 
 
@@ -175,7 +177,7 @@ def run_case(work, idx, c):
     root = os.path.join(work, f"c{idx}")
     src = os.path.join(root, "a", "b", "proj")
     # profile generic_mapped: Foo also has a member of the mapped generic type, applied to arguments no backend but Go / TypeScript / Python translates
-    cli.make_tree(src, {"src/lib.rs": SRC if c.get("tables", "basic") != "generic_mapped" else SRC.replace("pub unit: (),", "pub unit: (), pub st: Stamped<OffsetDateTime, Vec<u64>>,")})
+    cli.make_tree(src, {"src/lib.rs": SRC if c.get("tables", "basic") != "generic_mapped" else SRC.replace("pub unit: (),", "pub unit: (), pub st: Stamped<OffsetDateTime, Vec<OffsetDateTime>>,")})
     disc = c["disc"]
     cwd = {"flag": os.path.join(root, "elsewhere"), "cwd": root, "parent": os.path.join(root, "a"), "grandparent": os.path.join(root, "a", "b"),
            "flag_over_cwd": os.path.join(root, "elsewhere"), "flag_over_parent": os.path.join(root, "elsewhere", "sub"),
@@ -218,7 +220,7 @@ def run_case(work, idx, c):
                         "texp": texp(lang, profile), "tobs": tobs}, {"kind": "run", "lang": lang, "disc": disc, "cli": c["cli"], "file": c["file"], "tables": profile}))
     # the same settings in folder mode INTO A LOCATION AN EARLIER RUN WITH ANOTHER CONFIGURATION FILE HAS FILLED: what the
     # files show is the configuration of this run (Swift: the module file and the shared Codable.swift)
-    if profile != "basic" and eff is not None:
+    if profile not in ("basic", "generic_mapped") and eff is not None:          # (generic_mapped: the earlier, basic configuration cannot generate that source)
         fdir = os.path.join(root, "folder_out")
         first_cfg = os.path.join(root, "conf", "earlier.toml")
         open(first_cfg, "w").write(toml_text(c["file"], profile="basic"))
@@ -245,6 +247,8 @@ def run_case(work, idx, c):
     for lang in ("swift", "kotlin", "scala", "go"):
         if (lang == "scala" and not written["scala_package"]) or (lang == "go" and not written["go_package"]):
             continue
+        if profile == "generic_mapped" and lang != "go":
+            continue          # the generated file has no type mappings: the source of this profile cannot be generated under it
         out = os.path.join(root, "reload." + common.EXT[lang])
         r = cli.run_cli(["-l", lang, "-o", out, src], cwd=gdir, timeout=20)     # discovered in cwd
         if r["exit"] != "ok":
@@ -289,7 +293,8 @@ def run(chk):
         for dname in ("cwd_over_parent", "cwd_over_all"):
             sl += [c for c in cases if c["disc"] == dname and c.get("tables", "basic") == "basic"][3::24]
         sl += [c for c in cases if "<given-empty>" in c["cli"].values()][3::8]
-        sl += [c for c in cases if c.get("tables", "basic") != "basic"][::3]
+        for prof in sorted({c.get("tables", "basic") for c in cases} - {"basic"}):          # every profile gets its own slice
+            sl += [c for c in cases if c.get("tables", "basic") == prof][::3]
         cases = sl
     chk.sample({"cell": {k: cases[len(cases) // 2][k] for k in ("cli", "file", "disc", "effective")}})
     work = common.scratch("c20")
